@@ -3,5 +3,9 @@ EXTENDS Keepalive
 C1 == {1}
 C2 == {1, 2}
 C3 == {1, 2, 3}
+C13 == {1, 3}
 C4 == {1, 2, 3, 4}
+\* datapath ids: all different / connection 3 comes from the switch behind connection 1 (a reconnect)
+DpidId == [c \in 1..4 |-> c]
+DpidDup == [c \in 1..4 |-> IF c = 3 THEN 1 ELSE c]
 ====
